@@ -65,7 +65,11 @@ func TestBlinding(t *testing.T) {
 		msg := gen.Bytes(t, 0, 200, "msg")
 		s.Eval()
 		s.Nontrivial(seed, b1, ctx, msg)
-		priv := pated.NewKeyFromSeed(seed)
+		seedBuf := append([]byte{}, seed...)
+		priv := pated.NewKeyFromSeed(seedBuf)
+		for i := range seedBuf {
+			seedBuf[i] ^= 0xFF // the caller reuses its seed buffer: the key must not alias it
+		}
 		pub := priv.Public().(pated.PublicKey)
 		fail := func(sig, f string, a ...any) { rt.Fail(t, "C15/"+sig, f, a...) }
 		// In half the cases the sequence starts with calls that FAIL (a public key that is not a curve point): an
